@@ -556,6 +556,190 @@ func vfC10RunConcurrent(run *vfkit.Run, cs *vfC10Case) {
 	run.Nontrivial(fmt.Sprintf("conc|%d|%v", cs.Seed, wireOrder))
 }
 
+// storm: senders and truthful acknowledgements at the same time. The peer answers, at random moments, with the
+// number of stanzas it has received so far (what a real server reports). At quiescence - senders returned, a marker
+// routed, no routing goroutine left, and a sentinel written by the harness has reached the peer, so the wire log is
+// complete - every stanza whose latest copy on the wire lies beyond the last acknowledged position must still be
+// held, in wire order, and nothing else; sequence numbers must increase.
+func vfC10RunStorm(run *vfkit.Run, cs *vfC10Case) {
+	s, err := vfC10Open()
+	if err != nil {
+		run.Inconclusive("session-setup")
+		return
+	}
+	defer s.Close()
+	per := map[int][]string{}
+	all := map[string]bool{}
+	for _, st := range cs.Steps {
+		if st.Op == "raw" {
+			per[st.G] = append(per[st.G], st.Text)
+			all[st.Text] = true
+		}
+	}
+	countStanzas := func(w string) int {
+		return strings.Count(w, "<message ") + strings.Count(w, "<presence") + strings.Count(w, "<iq ")
+	}
+	var wg sync.WaitGroup
+	stopAcks := make(chan struct{})
+	var hmax int
+	var hmu sync.Mutex
+	ackDone := make(chan struct{})
+	go func() { // the truthful server
+		defer close(ackDone)
+		r := rand.New(rand.NewSource(cs.Seed*77 + 5))
+		for {
+			select {
+			case <-stopAcks:
+				return
+			case <-time.After(time.Duration(r.Intn(400)) * time.Microsecond):
+			}
+			h := 1 + countStanzas(s.wire()) // + the initial presence, which was read during the negotiation
+			select {
+			case s.acks <- fmt.Sprintf(`<a xmlns="urn:xmpp:sm:3" h="%d"/>`, h):
+				// only an acknowledgement that was really handed to the peer's writer counts
+				hmu.Lock()
+				if h > hmax {
+					hmax = h
+				}
+				hmu.Unlock()
+			case <-stopAcks:
+				return
+			}
+		}
+	}()
+	var sendErr error
+	var emu sync.Mutex
+	for g, list := range per {
+		wg.Add(1)
+		go func(g int, list []string) {
+			defer wg.Done()
+			for _, x := range list {
+				if err := s.c.SendRaw(x); err != nil {
+					emu.Lock()
+					sendErr = err
+					emu.Unlock()
+				}
+				time.Sleep(0)
+			}
+		}(g, list)
+	}
+	wg.Wait()
+	close(stopAcks)
+	<-ackDone
+	if sendErr != nil {
+		run.Violation("C10/send-error:storm", sendErr.Error(), cs)
+		return
+	}
+	// quiescence
+	s.mk++
+	mk := fmt.Sprintf("mk-storm-%d", s.mk)
+	s.acks <- fmt.Sprintf(`<message id="%s" from="peer"><body>m</body></message>`, mk)
+	if !vfWaitUntil(20*time.Second, func() bool {
+		seen := false
+		for _, id := range s.obs.Handled() {
+			if id == mk {
+				seen = true
+			}
+		}
+		return seen && !vfRouterBusy(s.c.router)
+	}) {
+		run.Inconclusive("storm-settle-watchdog")
+		return
+	}
+	got, ids := vfQueueTexts(s.c)
+	sentinel := fmt.Sprintf("<!--sentinel-%d-->", cs.Seed)
+	if err := s.c.transport.(*XMPPTransport).conn.SetWriteDeadline(time.Now().Add(10 * time.Second)); err == nil {
+		s.c.transport.(*XMPPTransport).conn.Write([]byte(sentinel)) // below the library: not a stanza, not queued
+	}
+	if !vfWaitUntil(15*time.Second, func() bool { return strings.Contains(s.wire(), sentinel) }) {
+		run.Inconclusive("storm-sentinel-watchdog")
+		return
+	}
+	wire := s.wire()
+	hmu.Lock()
+	H := hmax
+	hmu.Unlock()
+	// positions: the initial presence is 1; walk the wire
+	type occ struct {
+		pos  int
+		text string
+	}
+	last := map[string]int{}
+	pos := 1
+	rest := wire
+	for {
+		i := strings.Index(rest, "<message ")
+		j := strings.Index(rest, "<presence")
+		if i < 0 && j < 0 {
+			break
+		}
+		if i < 0 || (j >= 0 && j < i) {
+			pos++
+			rest = rest[j+9:]
+			last["<presence/>"] = pos
+			continue
+		}
+		end := strings.Index(rest[i:], "</message>")
+		if end < 0 {
+			break
+		}
+		text := rest[i : i+end+len("</message>")]
+		pos++
+		last[text] = pos
+		rest = rest[i+end+len("</message>"):]
+	}
+	for t := range all {
+		if _, ok := last[t]; !ok {
+			run.Violation("C10/storm:stanza-not-on-wire-whole", fmt.Sprintf("%q never appeared whole on the wire", vfClip2(t, 60)), cs)
+			return
+		}
+	}
+	var want []occ
+	for t, p := range last {
+		if p > H && (all[t]) {
+			want = append(want, occ{p, t})
+		}
+	}
+	for i := 0; i < len(want); i++ {
+		for j := i + 1; j < len(want); j++ {
+			if want[j].pos < want[i].pos {
+				want[i], want[j] = want[j], want[i]
+			}
+		}
+	}
+	var wantT []string
+	for _, o := range want {
+		wantT = append(wantT, o.text)
+	}
+	var gotT []string
+	for _, t := range got {
+		if t != InitialPresence {
+			gotT = append(gotT, t)
+		}
+	}
+	if !vfSameStrs(gotT, wantT) {
+		k := "C10/storm:held-list-wrong"
+		if len(gotT) < len(wantT) {
+			k = "C10/storm:unacknowledged-stanza-discarded"
+		} else if len(gotT) > len(wantT) {
+			k = "C10/storm:acknowledged-stanza-still-held"
+		}
+		run.Violation(k, fmt.Sprintf("%d senders, last acknowledgement h=%d, %d stanza positions on the wire: queue holds %d %s, expected (latest copy beyond h, wire order) %d %s",
+			len(per), H, pos, len(gotT), vfClipList(gotT), len(wantT), vfClipList(wantT)), cs)
+		return
+	}
+	for j := 1; j < len(ids); j++ {
+		if ids[j] <= ids[j-1] {
+			run.Violation("C10/storm:sequence-numbers-not-increasing", fmt.Sprintf("ids %v", ids), cs)
+			return
+		}
+	}
+	run.Count("storm_histories_checked", 1)
+	run.Count("storm_wire_positions", int64(pos))
+	run.Count("storm_retransmitted", int64(pos-1-len(all)))
+	run.Nontrivial(fmt.Sprintf("storm|%d|%d|%d", cs.Seed, H, pos))
+}
+
 func TestVf_C10(t *testing.T) {
 	run := vfkit.Open("C10", "outbound histories of 5-60 steps over {Send message/presence/iq, SendRaw, Send(SMRequest), Send(SMAnswer), server <a h=N/>} with N in "+
 		"{0, presence only, < sent, = sent, > sent, repeated, stale}; after every step the real queue must equal the model's held list and the peer's raw byte log the model's wire "+
@@ -565,7 +749,11 @@ func TestVf_C10(t *testing.T) {
 	var rc vfC10Case
 	if run.ReplayCase(&rc) {
 		run.Case(rc)
-		if rc.Senders > 1 {
+		if rc.Senders < 0 {
+			for i := 0; i < 20; i++ {
+				vfC10RunStorm(run, &rc)
+			}
+		} else if rc.Senders > 1 {
 			for i := 0; i < 20; i++ {
 				vfC10RunConcurrent(run, &rc)
 			}
@@ -584,6 +772,19 @@ func TestVf_C10(t *testing.T) {
 			defer wg.Done()
 			for c := wk; c < n && !run.Enough(); c += workers {
 				r := rand.New(rand.NewSource(vfkit.Seed()*15485863 + int64(c)))
+				if c%8 == 7 {
+					g := 2 + r.Intn(5)
+					cs := &vfC10Case{Seed: int64(c), Senders: -g}
+					for gi := 0; gi < g; gi++ {
+						k := 3 + r.Intn(20)
+						for j := 0; j < k; j++ {
+							cs.Steps = append(cs.Steps, vfC10Step{Op: "raw", G: gi, Text: fmt.Sprintf(`<message id='st%d-g%d-%d'><body>%s</body></message>`, c, gi, j, strings.Repeat("y", r.Intn(200)))})
+						}
+					}
+					run.Case(cs)
+					vfC10RunStorm(run, cs)
+					continue
+				}
 				if c%4 == 3 {
 					g := 2 + r.Intn(7)
 					cs := &vfC10Case{Seed: int64(c), Senders: g}
